@@ -38,6 +38,7 @@ def scanners(F):
 
 def rollback_rule(F, R, rid):
     """failure exits of program building restore the symbol map / module table (shared by C06.B and C07.b)"""
+    rollback_threshold_rule(F, R, rid)
     # ---- B rollback
     eng = F.one(r"\{impl Engine\}::raw_program_to_executable$")
     builds = eng.call_blocks(r"\{impl RawProgramWithSymbols\}::build$")
@@ -82,6 +83,38 @@ def rollback_rule(F, R, rid):
            "ModuleManager.compiled_modules is never written back after compile_raw_program_impl: modules compiled by "
            "a failing evaluation stay registered", comp.loc())
 
+
+
+def rollback_threshold_rule(F, R, rid):
+    """SymbolMap::roll_back(index) keeps exactly the half-open range [0, index) in BOTH tables: either the map entries are
+    removed by the names drained from `values` (coupled form), or the map's keep-predicate is `slot < index` — the same
+    range that truncate(index)/drain(index..) keeps."""
+    rb = F.one(r"^steel::compiler::map::\{impl SymbolMap\}::roll_back$")
+    fam_calls = list(lib.family_calls(F, rb))
+    drains = [b for _, b in fam_calls if re.search(r"Vec<T,A>\}::(drain|truncate|split_off)$", b["callee"])]
+    removes = [b for _, b in fam_calls if re.search(r"HashMap<K,V,S[^}]*\}::remove$", b["callee"])]
+    retains = [b for _, b in fam_calls if re.search(r"HashMap<K,V,S[^}]*\}::(retain|extract_if)$", b["callee"])]
+    R.inst(rid, "SymbolMap::roll_back shrinks the value table", bool(drains),
+           "SymbolMap::roll_back no longer drains/truncates SymbolMap.values", rb.loc(), sample=True)
+    coupled = bool(removes) and any(re.search(r"::drain$", b["callee"]) for b in drains)
+    pred_ok = None
+    if retains and not coupled:
+        pred_ok = False
+        for _, e in lib.family_events(F, rb, "binop"):
+            if e[2] != "usize":
+                continue
+            lhs_cap = ".0" in e[5] or "_1." in e[5]   # captured checkpoint on the left?
+            rhs_cap = ".0" in e[6] or "_1." in e[6]
+            if (e[1] == "Lt" and rhs_cap and not lhs_cap) or (e[1] == "Gt" and lhs_cap and not rhs_cap):
+                pred_ok = True     # keep when slot < index
+            if e[1] in ("Le", "Ge", "Eq", "Ne"):
+                pred_ok = False
+                break
+    R.inst(rid, "SymbolMap::roll_back / name table cut at the same point as the value table", coupled or bool(pred_ok),
+           "SymbolMap::roll_back does not remove the names of exactly the drained slots: it neither feeds map.remove from "
+           "values.drain(index..) nor keeps map entries with `slot < index`; a name registered by the failed program at the "
+           "checkpoint index survives the rollback and resolves to a slot that no longer exists (host panic on use) or is "
+           "handed to the next definition", rb.loc(), sample={"coupled": coupled, "retain_predicate_strict": pred_ok})
 
 
 def shadow_bookkeeping_rule(F, R, rid):
